@@ -26,7 +26,9 @@ pub struct Case {
     /// 3 psk == psk_id, 4 psk == psk_id == info == every aad, 5 every aad == info (and one exporter context == info),
     /// 6 info == the recipient's public key bytes, 7 psk_id == the encapsulated-key-sized prefix of info, 8 the RNG hands out
     /// the bytes the recipient key was derived from (skE = skR, enc = pkR), 9 the same with the sender identity key,
-    /// 10 every plaintext == its aad == info, 11 every plaintext == psk and one exporter context == psk
+    /// 10 every plaintext == its aad == info, 11 every plaintext == psk and one exporter context == psk;
+    /// value classes of psk / psk_id / info: 12 trailing ASCII whitespace ("key\n", "id \t"), 13 trailing and leading NUL
+    /// bytes, 14 leading whitespace and a psk that is all spaces
     #[serde(default)]
     pub equal: u8,
 }
@@ -77,9 +79,9 @@ impl Part for C02 {
     }
     fn bound(&self, cfg: &Cfg) -> String {
         if cfg.tier.thorough() {
-            "48 suites x 4 modes x 6 info lengths x 5 psk shapes (psk modes) x 6 message sequences (up to 25 messages) x 2 of 5 fills rotating; 11 equality relations between inputs x 48 suites x modes; every length 0..600 of info / psk / psk_id for 3 suites".into()
+            "48 suites x 4 modes x 6 info lengths x 5 psk shapes (psk modes) x 6 message sequences (up to 25 messages) x 2 of 5 fills rotating; 11 equality relations between inputs and 3 value classes (whitespace, NUL) x 48 suites x modes; every length 0..600 of info / psk / psk_id for 3 suites".into()
         } else {
-            "48 suites x 4 modes x 2 info lengths x 2 psk shapes (psk modes) x 3 message sequences x 1 fill; 11 equality relations between inputs x 16 suites x modes; every length 0..300 of info / psk / psk_id for 3 suites".into()
+            "48 suites x 4 modes x 2 info lengths x 2 psk shapes (psk modes) x 3 message sequences x 1 fill; 11 equality relations between inputs and 3 value classes (whitespace, NUL) x 16 suites x modes; every length 0..300 of info / psk / psk_id for 3 suites".into()
         }
     }
     fn enumerate(&self, cfg: &Cfg) -> Vec<Case> {
@@ -117,8 +119,8 @@ impl Part for C02 {
                 continue;
             }
             for mode in MODES {
-                for equal in 1..=11u8 {
-                    if !mode.has_psk() && matches!(equal, 1 | 2 | 3 | 4 | 7 | 11) {
+                for equal in 1..=14u8 {
+                    if !mode.has_psk() && matches!(equal, 1 | 2 | 3 | 4 | 7 | 11 | 12 | 13 | 14) {
                         continue;
                     }
                     if !mode.has_auth() && equal == 9 {
@@ -179,6 +181,21 @@ impl Part for C02 {
             4 => {
                 psk = info.clone();
                 psk_id = info.clone();
+            }
+            12 => {
+                psk = [&psk[..], b"\n"].concat();
+                psk_id = [&psk_id[..], b" \t"].concat();
+                info = [&info[..], b"\r\n"].concat();
+            }
+            13 => {
+                psk = [&[0u8][..], &psk[..], &[0u8, 0][..]].concat();
+                psk_id = [&psk_id[..], &[0u8][..]].concat();
+                info = [&info[..], &[0u8][..]].concat();
+            }
+            14 => {
+                psk = vec![b' '; 32];
+                psk_id = [b"  ", &psk_id[..]].concat();
+                info = [b"\t", &info[..]].concat();
             }
             6 => info = k.pk_r.clone(),
             7 => {
@@ -336,6 +353,30 @@ impl Part for C02 {
             Err(e) => {
                 out.transitions += 1;
                 out.fail(e);
+            }
+        }
+
+        // ---------------- one RNG object serving two setups in a row ----------------
+        // each setup draws exactly the Nsk bytes its ephemeral key is derived from, so the second session's key comes from
+        // the NEXT Nsk bytes of the caller's stream
+        if c.rng_hex.is_none() && c.tag % 3 == 0 {
+            let ikm2 = bytes(Fill::Mix, c.suite.kem.nsk(), 9000 + c.tag, cfg.seed);
+            let script = [&k.ikm_e[..], &ikm2[..], &[0x3c; 80][..]].concat();
+            let mut rng2 = ScriptRng::new(&script);
+            let first = ops.setup_sender(&m, &k.pk_r, &info, &mut rng2).map(|x| x.0);
+            let second = ops.setup_sender(&m, &k.pk_r, &info, &mut rng2);
+            out.transitions += 2;
+            match (first, second, r1_setup_s(c.suite, &m, &k.pk_r, &info, &ikm2)) {
+                (Obs::Ok(e1), Obs::Ok((e2, s2)), Some((e2_ref, r2))) => {
+                    if e1 != enc_ref {
+                        out.fail("first of two setups on one RNG object: enc differs from R1");
+                    }
+                    if e2 != e2_ref {
+                        out.fail(format!("second setup on the same RNG object: enc is not the public key of DeriveKeyPair(the NEXT Nsk bytes of the stream) - {} bytes were drawn in total", rng2.drawn()));
+                    }
+                    expect_bytes(&mut out, "second setup on the same RNG object: export", &s2.export(b"second", 32), &r2.export(b"second", 32).unwrap());
+                }
+                (a, b, _) => out.fail(format!("two setups on one RNG object: {} / {}", a.map(|_| ()).class(), b.map(|_| ()).class())),
             }
         }
 
